@@ -311,3 +311,23 @@ def _origin_aggs(o):
             if isinstance(x, tuple):
                 out.extend(_origin_aggs(x))
     return out
+
+
+def whole_value_overwrites(prog, adt_names, skip=lambda b: False):
+    """Sites that replace a whole live value of one of `adt_names` in place (and so reset every field of it at once):
+    an assignment to a projected place (`*self = ..`, `self.queue = ..`, `slot[i] = ..`) whose type is the ADT, or a
+    std::mem::{replace, swap, take} instantiated at the ADT. Initialising a fresh local is not an overwrite."""
+    from ..core import norm
+    out = []
+    for b in prog.all_bodies():
+        if skip(b):
+            continue
+        for s in b.assigns():
+            ph = s.node.get("ph")
+            if ph and norm(ph) in adt_names:
+                out.append(s)
+        for s in b.calls(r"^std::mem::(replace|swap|take)$"):
+            g = s.node.get("gargs") or []
+            if g and any(norm(str(x)).split("<", 1)[0] in adt_names for x in g[:1]):
+                out.append(s)
+    return out
